@@ -38,16 +38,16 @@ def rnd_stamp(rng):
 
 def events(ctx):
     rng = ctx.rng
-    for _ in range(ctx.q(6000, 400000)):
+    for _ in range(ctx.q(15000, 1000000)):
         yield record("cds.rt", {"st": rnd_stamp(rng), "sfx": [rng.randrange(256)] * rng.choice([0, 0, 3])})
-    for _ in range(ctx.q(8000, 500000)):
+    for _ in range(ctx.q(20000, 1500000)):
         us = rng.randrange(SPAN_US)
         if rng.random() < 0.5:
             us -= us % 1000
         dt = EPOCH + datetime.timedelta(microseconds=us)
         yield record("cds.from_dt", {"t": {"y": dt.year, "mo": dt.month, "d": dt.day, "h": dt.hour, "mi": dt.minute,
                                            "s": dt.second, "us": dt.microsecond}})
-    for _ in range(ctx.q(8000, 400000)):
+    for _ in range(ctx.q(20000, 1000000)):
         st = rnd_stamp(rng)
         k = rng.randrange(4)
         if k == 0:      # land exactly on / next to midnight
@@ -61,7 +61,7 @@ def events(ctx):
             td = {"days": rng.choice([0, 0, 1, rng.randrange(70000)]), "secs": rng.randrange(86400),
                   "us": rng.choice([0, 1000 * rng.randrange(1000), rng.randrange(1000000)])}
         yield record("cds.add", {"st": st, "td": td})
-    for _ in range(ctx.q(4000, 200000)):
+    for _ in range(ctx.q(10000, 500000)):
         s1 = rnd_stamp(rng)
         s2 = dict(s1)
         k = rng.randrange(4)
@@ -75,7 +75,7 @@ def events(ctx):
         if rng.random() < 0.5:
             s1, s2 = s2, s1
         yield record("cds.cmp", {"s1": s1, "s2": s2})
-    for _ in range(ctx.q(4000, 200000)):
+    for _ in range(ctx.q(10000, 500000)):
         b = [rng.choice([64, 64, 64, rng.randrange(256)])] + [rng.randrange(256) for _ in range(rng.choice([0, 3, 5, 6, 6, 6, 9]))]
         yield record("cds.unpack", {"octets": b})
 
